@@ -174,7 +174,9 @@ func c05RunSem(op []string, n int, borrow func(r *verifh.Rng) bool, l c05Sem) st
 			}
 		}(gid)
 	}
-	wg.Wait()
+	if !c5.Watchdog(c5.StuckAfter, wg.Wait) {
+		return "stuck"
+	}
 	return c5.RunLine(h, ga, c05Probe(l, n))
 }
 
@@ -347,7 +349,10 @@ func c05StartPool(cfg verifh.Cfg) (func(op []string) string, func()) {
 				return "wait" // Get would reach cond.Wait with nobody to wake it
 			}
 			createdLog, destroyedLog = nil, nil
-			x := p.Get().(int)
+			var x int
+			if !c5.Watchdog(2*time.Second, func() { x = p.Get().(int) }) {
+				return "stuck" // Get waits although the pre-check saw an idle resource or spare capacity
+			}
 			held = append(held, x)
 			fresh := 0
 			if len(createdLog) > 0 {
@@ -419,7 +424,9 @@ func c05StartPool(cfg verifh.Cfg) (func(op []string) string, func()) {
 					}
 				}(gid)
 			}
-			wg.Wait()
+			if !c5.Watchdog(c5.StuckAfter, wg.Wait) {
+				return "stuck"
+			}
 			toks := hist.Tokens()
 			hist = nil
 			nidle := 0
